@@ -397,6 +397,24 @@ func c20SameMux(c *Ctx) {
 			if !hit {
 				okDef = false
 			}
+			// ... and it was wrapped in THIS iteration: every call on the way from the max-answer handler to the
+			// stored value dominates the store (a wrapper built in an earlier iteration, or only on the first one,
+			// still points at that iteration's max-answer handler)
+			for v := range backSlice(st.Val, nil) {
+				call, isCall := v.(*ssa.Call)
+				if !isCall || len(maxCalls) != 1 || call == maxCalls[0].(*ssa.Call) {
+					continue
+				}
+				fromMax := false
+				for w := range backSlice(call, nil) {
+					if ex, ok := w.(*ssa.Extract); ok && ex.Tuple == ssa.Value(maxCalls[0].(*ssa.Call)) {
+						fromMax = true
+					}
+				}
+				if fromMax && !instrDominates(call, st) {
+					okDef = false
+				}
+			}
 		}
 		c.Check(rule, fnName(start)+"|mux-wraps-this-address-handler", okDef && nst > 0, mux.Pos(), "the mux's chain starts at this address's max-answer handler (directly or through the DNSSEC wrapper built from it)")
 		// same mux to all transports
